@@ -42,6 +42,10 @@ type Run struct {
 	simTime   time.Duration
 	quiet     bool // minimiser re-executions do not touch the accumulators
 	OtherProp map[string]int
+	// Map, when set, rewrites (property, rule, signature) of every violation
+	// before it is recorded — used to evaluate one property's rules as part
+	// of another's (e.g. C12's liveness clause re-uses the C01–C04 rules).
+	Map func(prop, rule, sig string) (string, string, string)
 }
 
 type KV struct {
@@ -80,6 +84,9 @@ func (r *Run) Set(k string, v interface{}) {
 // noted and checking continues. Violations of other properties' rules are only
 // counted (their own check reports them).
 func (r *Run) Violate(prop, rule, sig, format string, a ...interface{}) {
+	if r.Map != nil {
+		prop, rule, sig = r.Map(prop, rule, sig)
+	}
 	if prop != r.Prop {
 		if r.OtherProp == nil {
 			r.OtherProp = map[string]int{}
